@@ -376,6 +376,12 @@ def check_selection(run, supported, target, label):
         r = L.get_closer_logic(supported, target)
     except NoLogicAvailableError:
         r = None
+    except Exception as e:
+        run.case(key=key, nontrivial=True)
+        run.fail({"subcheck": "select:closer-raised", "exc": type(e).__name__},
+                 {"supported": [str(l) for l in supported], "target": str(target)},
+                 "get_closer_logic raised %s: %s for target %s and supported %s" % (type(e).__name__, e, target, supported))
+        return
     minimal = [l for l in above if not any(k != l and k <= l and not (l <= k) for k in above)]
     run.case(key=key, nontrivial=len(minimal) >= 2 or (not above))
     if len(minimal) >= 2:
@@ -460,6 +466,16 @@ def shard_selection(shard, nshards, seed, nsubsets):
             # also targets that are not named logics
             th = rnd.choice(logics).theory.combine(rnd.choice(logics).theory)
             check_selection(run, sup, Logic("anon", "", quantifier_free=rnd.random() < 0.5, theory=th), "subset-anon")
+            # a user-defined logic with the content of a named one (another name) among the supported logics
+            twin_of = rnd.choice(sup)
+            clone = Logic("clone of " + str(twin_of), "", quantifier_free=twin_of.quantifier_free, theory=twin_of.theory)
+            for t in rnd.sample(logics, 6):
+                check_selection(run, sup + [clone], t, "subset-with-clone")
+            # the order relations between a logic and its renamed copy
+            if (clone < twin_of) or (twin_of < clone) or (clone > twin_of) or not (clone <= twin_of and twin_of <= clone):
+                run.fail({"subcheck": "order:renamed-copy"}, {"logic": str(twin_of)},
+                         "%s and a copy of it under another name: <  gives %r / %r, <= gives %r / %r" % (
+                             twin_of, clone < twin_of, twin_of < clone, clone <= twin_of, twin_of <= clone))
     drive(body, st.randoms(use_true_random=True), 1, derive_seed(seed, "c13s", shard))
     return run
 
